@@ -239,3 +239,11 @@ V("C37-system-role-allowed","C37",IC+"process_eacl.go","			if target.Role() == e
 V("C37-unknown-sysattr-skipped","C37",IC+"process_container.go","			if _, ok := allowedSystemAttributes[k]; !ok {\n				return fmt.Errorf(\"system attribute %s is not allowed\", k)\n			}","			if _, ok := allowedSystemAttributes[k]; !ok {\n				continue\n			}",rule="C37.R2")
 V("C37-policy-verify-dropped","C37",IC+"process_container.go","	if err = cnr.PlacementPolicy().Verify(); err != nil {\n		return fmt.Errorf(\"invalid storage policy: %w\", err)\n	}","	if err = cnr.PlacementPolicy().Verify(); err != nil && domainZone == \"\" {\n		return fmt.Errorf(\"invalid storage policy: %w\", err)\n	}",rule="C37.R2")
 V("C37-create-with-unchecked-eacl","C37",IC+"process_container.go","		err = cp.checkSetEACL(*req.EACLTable, table, id, cnr)\n		if err != nil {","		err = cp.checkSetEACL(*req.EACLTable, table, id, cnr)\n		if err != nil && len(req.SessionToken) == 0 {",rule="C37.R1")
+
+IR="pkg/innerring/"
+V("C35-revert-fix-vote-negative-index","C35",IR+"state.go","	if index < 0 || index >= len(s.contracts.alphabet) {","	if index >= len(s.contracts.alphabet) {",rule="C35.R1")
+V("C35-emit-guard-dropped","C35",IR+"processors/alphabet/process_emit.go","	index := ap.irList.AlphabetIndex()\n	if index < 0 {","	index := ap.irList.AlphabetIndex()\n	if index < -1 {",rule="C35.R1")
+V("C35-alphabetindex-zero-on-error","C35",IR+"state.go","		s.log.Error(\"can't get alphabet index\", zap.Error(err))\n		return -1","		s.log.Error(\"can't get alphabet index\", zap.Error(err))\n		return 0",rule="C35.R2")
+V("C35-isalphabet-offbyone","C35",IR+"state.go","	return s.AlphabetIndex() >= 0","	return s.AlphabetIndex() >= -1",rule="C35.R2")
+V("C35-keyposition-default-zero","C35",IR+"indexer.go","	result = -1\n	rawBytes := key.Bytes()","	rawBytes := key.Bytes()",rule="C35.R2")
+V("C35-indexer-stale-on-committee-error","C35",IR+"indexer.go","	alphabet, err := s.commFetcher.Committee()\n	if err != nil {\n		return indexes{}, err\n	}","	alphabet, err := s.commFetcher.Committee()\n	if err != nil {\n		return s.ind, nil\n	}",rule="C35.R2")
